@@ -7,6 +7,21 @@ ALL = ["C%02d" % i for i in range(1, 21)]
 
 # property id -> (level category, level text, level note, technique, design ref)
 CHECKS = {
+ "C06": ("exploration",
+         "Randomised multisets of 1..5 matching rules over the feature combinations of the statement, every one executed in ALL its permutations through NewMatchingResult / GetDNSBasicRule and in sampled permutations through Engine, NetworkEngine and DNSEngine with random list splits; the verdict class is compared with a precedence reference computed on the specs and the selected rule is checked not to be a rewrite, badfilter, disabled or stealth rule. Order dependence is what the tests cannot see, and all-permutations execution reaches it directly.",
+         "Reference precedence is written from the statement (a referrer-level $urlblock exception suppresses every blocking rule, $genericblock those without a permitted $domain); multisets are sampled, not enumerated; twins keep value order.",
+         "runtime differential oracle (precedence reference on specs) over all permutations of sampled rule multisets",
+         "DESIGN.md section 4, C06"),
+ "C07": ("exploration",
+         "Exhaustive over a pool of 5120 rules that covers every combination of the features the comparison reads: irreflexivity, asymmetry, class order and specific-over-generic on all 26 M ordered pairs, add-one-modifier => strictly higher for every rule, transitivity of > and of ties on all triples of PRNG-drawn 90-rule subsets (quick 4.7e7, thorough 1.5e9 triples), and selection maximality / order independence for candidate lists in all permutations.",
+         "'Exhaustive' is relative to the pool; the order axioms are checked on the relation the code computes, the agreement clauses (class, specific over generic, add-a-modifier) come from the statement; triples are sampled subsets, not all 1.3e11.",
+         "runtime invariant check of order axioms, exhaustive over a feature-complete rule pool",
+         "DESIGN.md section 4, C07"),
+ "C08": ("exploration",
+         "Metamorphic execution: verdicts before and after adding k=1..4 mutually similar rules with their $badfilter twins at random positions, and before/after adding x$badfilter next to a rule y that differs from x in exactly one aspect (12 aspects), compared through rule objects (exact) and through the web and DNS engines (up to priority ties), including DNSRewrites().",
+         "Base lists and variations are sampled; twins keep the value order inside a modifier; through engines a changed selection inside a priority tie is accepted because added rules legitimately change index buckets.",
+         "runtime metamorphic oracle (twin insertion, one-aspect neighbour) on rule objects and engines",
+         "DESIGN.md section 4, C08"),
  "C03": ("exploration",
          "Bounded-exhaustive runtime comparison: every token string up to length 3 (thorough 4) over the 20 mask/regex-metacharacter tokens, also in ||-prefixed, /*-suffixed and pipe-wrapped forms, is compiled by the rule itself (hook VerifPrepared) and compared with a hand-written token matcher on every string up to length 4 (thorough 5) over a per-pattern reduced alphabet under up to 12 scheme/subdomain prefixes, plus walked witnesses and near misses that also go through NetworkRule.Match (quick: 8e7 comparisons, thorough: 6e9). The statement asks for language equivalence per pattern; executions can only give this bounded enumeration, and the evidence says so.",
          "Reference matcher is hand-written from the documented mask syntax and the library's documented constants for START_URL and the separator class; space is excluded from strings; disagreements that need a string longer than the bound and outside the witness set are missed; patterns the rule text cannot express (e.g. ending in a backslash before '$') are counted inconclusive.",
